@@ -748,3 +748,50 @@ class _normalize_new_u:
         f0, f1 = Fq(old.self), Fq(result)
         return And(count_of(result) == n, forall(0, n, lambda i: close(f1[i] * tot, f0[i] * scale)),
                    attr(result, "_dtype").kind == "f", _untouched(old.self, a.self), _fresh(result, a.self))
+
+
+# ---------------------------------------------------------------------------------------------- validation of the array-defined binnings (C07)
+
+def _rising_t(bins, n):
+    """every bin has positive width and no bin starts before its predecessor ends (the rule of is_rising)"""
+    return And(forall(0, n, lambda i: bins[i, 0] < bins[i, 1]), forall(0, n - 1, lambda i: bins[i, 1] <= bins[i + 1, 0]))
+
+
+@contract("physt.binnings:StaticBinning.__init__", props=["C07"], name="physt.binnings:StaticBinning.__init__[any bin count]")
+class _static_init_u:
+    probe = "quantifier-free"
+
+    def inputs(b):
+        n = nbins(b)
+        return dict(self=b.obj(STB), bins=b.tarray("e", (n, 2)))
+
+    @ensures("accepted_bins_are_rising_and_stored_as_given")
+    def _(a, old, result):
+        n = shape_of(old.bins)[0]
+        return And(_rising_t(old.bins, n), same(attr(a.self, "_bins"), old.bins), attr(a.self, "_includes_right_edge") is True,
+                   attr(a.self, "_adaptive") is False)
+
+    @raises(ValueError, "unsorted_overlapping_or_empty_width_bins_are_refused")
+    def _(o):
+        return Not(_rising_t(o.bins, shape_of(o.bins)[0]))
+
+
+@contract("physt.binnings:NumpyBinning.__init__", props=["C07"], name="physt.binnings:NumpyBinning.__init__[any bin count]")
+class _numpy_init_u:
+    probe = "quantifier-free"
+
+    def inputs(b):
+        n = nbins(b)
+        return dict(self=b.obj(NPB), numpy_bins=b.tarray("e", (n + 1,)))
+
+    @ensures("accepted_edges_are_strictly_rising_and_stored_as_given")
+    def _(a, old, result):
+        m = shape_of(old.numpy_bins)[0]
+        e = old.numpy_bins
+        return And(forall(0, m - 1, lambda i: e[i] < e[i + 1]), same(attr(a.self, "_numpy_bins"), e))
+
+    @raises(ValueError, "edges_that_are_not_strictly_rising_are_refused")
+    def _(o):
+        m = shape_of(o.numpy_bins)[0]
+        e = o.numpy_bins
+        return Not(forall(0, m - 1, lambda i: e[i] < e[i + 1]))
